@@ -87,6 +87,9 @@ def analyse(ctx, case, run, S):
     ctx.expect(got != 'panic', 'C15:panic', '%s: from_bytes PANICKED' % name, cfg, 'any_panic')
     ctx.expect((got == 'ok') == want, 'C15:%s' % cls, '%s: from_bytes returned %s, the acceptance set says %s' % (name, dec, 'accept' if want else 'refuse'), cfg, 'codec_mismatch', det)
     # the recorded path condition must justify the verdict: for an accepted buffer every scalar-position element was asked for canonicity and answered yes, nothing else was asked
+    # the serde form accepts exactly the same strings whether it is read from a slice or from a stream
+    ctx.expect(o.get('serde_reader_decode') == o.get('serde_decode'), 'C15:serde', '%s: serde from a reader returned %s, from a slice %s' % (name, o.get('serde_reader_decode'), o.get('serde_decode')),
+               cfg, 'codec_mismatch', dict(det, replay_priority=det['replay_priority'] + 1))
     if got == 'ok' and want:
         d = tag
         asked = [ev['detail'].get('elem') for ev in run.events_in(o['events']) if ev['ev'] == 'branch' and ev['kind'] == 'canonical']
